@@ -460,6 +460,58 @@ def managerSteps : Nat → State → State
   | 0, s => s
   | k + 1, s => managerSteps k (managerStep s).1
 
+/-! ### The error message of `TerminatedWorkerError` (`backend/utils.py`)
+
+`wait_result_broken_or_wakeup` builds its message from the workers' exit codes BEFORE it returns the error to
+`run`, in the manager thread: an exception there would kill the thread with the executor never flagged and the
+futures never failed. -/
+
+inductive PyErr where
+  | valueError
+deriving DecidableEq, Repr
+
+/-- `signal.Signals(n).name`: `names` is the enum (number ↦ name); a number that is not a member raises `ValueError`
+(on Linux the real-time signals strictly between SIGRTMIN and SIGRTMAX have no name). -/
+def signalsName (names : List (Nat × String)) (n : Nat) : Except PyErr String :=
+  match names.lookup n with
+  | some s => .ok s
+  | none => .error .valueError
+
+/-- `_get_exitcode_name(exitcode)` (posix): `try: return signal.Signals(-exitcode).name / except ValueError: return
+"UNKNOWN"` for a negative exit code; `"EXIT"` for every other code but 255; `"UNKNOWN"` for 255. -/
+def getExitcodeName (names : List (Nat × String)) (exitcode : Int) : Except PyErr String :=
+  if exitcode < 0 then
+    match signalsName names (-exitcode).toNat with
+    | .ok s => .ok s
+    | .error .valueError => .ok "UNKNOWN"
+  else if exitcode ≠ 255 then .ok "EXIT"
+  else .ok "UNKNOWN"
+
+/-- `_format_exitcodes(exitcodes)`: `"{" + ", ".join(f"{_get_exitcode_name(e)}({e})" …) + "}"`. -/
+def formatExitcodes (names : List (Nat × String)) (exitcodes : List Int) : Except PyErr String := do
+  let parts ← exitcodes.mapM (fun e => do
+    let n ← getExitcodeName names e
+    pure (n ++ "(" ++ toString e ++ ")"))
+  pure ("{" ++ ", ".intercalate parts ++ "}")
+
+/-! ### `terminate_broken` step by step, with the client in between
+
+`terminateBroken` above is the manager's tear-down run without interruption. The client thread is not stopped while
+it runs: `submits` are the `submit` calls it may issue between two steps. -/
+
+/-- `submit` for each argument in turn (the outcomes are dropped). -/
+def submits (s : State) (args : List Nat) : State := args.foldl (fun s a => (submit s a).1) s
+
+/-- The order of the code: `flag_as_broken` — client — fail and clear the pending items — client — `kill_workers`
+— client — `join_executor_internals`. -/
+def terminateBrokenInterleaved (s : State) (bpe : Exc) (a1 a2 a3 : List Nat) : State :=
+  joinExecutorInternals
+    (submits (killWorkers (submits (failPending (submits (flagAsBroken s bpe) a1) bpe) a2)) a3)
+
+/-- The OTHER order (not the code's): fail and clear first, flag afterwards. -/
+def terminateBrokenFlagLast (s : State) (bpe : Exc) (a1 : List Nat) : State :=
+  joinExecutorInternals (killWorkers (flagAsBroken (submits (failPending s bpe) a1) bpe))
+
 /-! ### `get_reusable_executor` and the loky backend of joblib -/
 
 structure Pool where
